@@ -250,9 +250,10 @@ class Run:
 def follow_up(run, out, sig_extra):
     """C10.d: a subsequent valid request is answered correctly."""
     w = run.w
-    dcc_disabled = run.stack.smap.dccEnableDisable != 'enable'
+    dcc_disabled = run.stack.smap.dccEnableDisable == 'disable'
     if dcc_disabled:
-        # communications legitimately disabled by an accepted DeviceCommunicationControl request
+        # communications legitimately disabled by an accepted DeviceCommunicationControl request; only the value 'disable'
+        # does that -- 'disableInitiation', an undefined enumeration value or an absent parameter leave a device that answers
         w.probe('dcc_disabled_legit')
         return
     mark = w.seq
@@ -506,7 +507,7 @@ QUICK_SERVICES = ['ReadProperty', 'WriteProperty', 'SubscribeCOV', 'ReadProperty
 def units(tier, seed):
     us = []
     full = tier == 'thorough'
-    names = sorted(VALID) if full else QUICK_SERVICES
+    names = sorted(VALID)      # every service in both tiers (the quick tier uses the smaller substitution set)
     for name in names:
         mod = 8 if full else 4
         for rem in range(mod):
